@@ -137,6 +137,10 @@ func XML(t *simkit.Tape, o *simkit.Outcome, full bool) {
 		}
 		return
 	}
+	if t.Bool(1, 3) {
+		model.TouchBottomUp(c)
+		o.Probe("first-observation-bottom-up")
+	}
 	snap := model.Snap(c)
 	for _, p := range snap.Problems {
 		o.Violate(P, "structure", "structure:"+p.Sig, "%s\ndocument: %s", p.Detail, show(data))
